@@ -132,6 +132,22 @@ theorem stepTLS_other {cfg : Cfg} {k : Str} (hk : TLSKeyFree cfg k) (tls : Bool)
       · exact entries_put_ne hne _ _
       · exact entries_del_ne hne _
 
+theorem stepConnection_other {k : Str} (hk : k ≠ connection) (cfg : Cfg) (h : Headers) :
+    entries k (stepConnection cfg h) = entries k h := by
+  unfold stepConnection
+  cases vals connection h with
+  | none => rfl
+  | some conn =>
+    simp only
+    split
+    · exact entries_del_ne hk _
+    · exact entries_put_ne hk _ _
+
+/-- The final `protectManagedHeaders` step only touches the `Connection` header. -/
+theorem addHeadersIP_entries {k : Str} (hk : k ≠ connection) (cfg : Cfg) (strip : Str) (r : Req) (ip : Str) :
+    entries k (addHeadersIP cfg strip r ip) = entries k (addHeadersCore cfg strip r ip) := by
+  unfold addHeadersIP; exact stepConnection_other hk _ _
+
 /-! ### the sentences of the property -/
 
 /-- **The configured client-IP header is overwritten with the peer address.** For a configured name other
@@ -140,13 +156,14 @@ value — for every header map the client's lines produced. -/
 theorem clientip_overwritten (cfg : Cfg) (strip : Str) (r : Req) (ip : Str)
     (hne : cfg.clientIPHeader ≠ []) (hx : cfg.clientIPHeader ≠ xForwardedFor) (hr : cfg.clientIPHeader ≠ xRealIp)
     (hk : canonicalKey cfg.clientIPHeader ∉
-      [xRealIp, xForwardedFor, xForwardedProto, xForwardedPort, xForwardedHost, xForwardedPrefix, forwarded])
+      [xRealIp, xForwardedFor, xForwardedProto, xForwardedPort, xForwardedHost, xForwardedPrefix, forwarded, connection])
     (ht : TLSKeyFree cfg (canonicalKey cfg.clientIPHeader)) :
     entries (canonicalKey cfg.clientIPHeader) (addHeadersIP cfg strip r ip)
       = [(canonicalKey cfg.clientIPHeader, [ip])] := by
   simp only [List.mem_cons, List.not_mem_nil, or_false, not_or] at hk
-  obtain ⟨k1, k2, k3, k4, k5, k6, k7⟩ := hk
-  unfold addHeadersIP
+  obtain ⟨k1, k2, k3, k4, k5, k6, k7, k8⟩ := hk
+  rw [addHeadersIP_entries k8]
+  unfold addHeadersCore
   rw [stepTLS_other ht, stepForward_other k3 k4 k5 k6 k7, stepWS_other k2, stepRealIp_other k1]
   have happ : clientIPApplies cfg = true := by
     simp [clientIPApplies, hne, hx, hr]
@@ -157,7 +174,7 @@ theorem wire_clientip_overwritten (cfg : Cfg) (strip : Str) (r : Req) (ip : Str)
     (wire : List (Str × Option Str))
     (hne : cfg.clientIPHeader ≠ []) (hx : cfg.clientIPHeader ≠ xForwardedFor) (hr : cfg.clientIPHeader ≠ xRealIp)
     (hk : canonicalKey cfg.clientIPHeader ∉
-      [xRealIp, xForwardedFor, xForwardedProto, xForwardedPort, xForwardedHost, xForwardedPrefix, forwarded])
+      [xRealIp, xForwardedFor, xForwardedProto, xForwardedPort, xForwardedHost, xForwardedPrefix, forwarded, connection])
     (ht : TLSKeyFree cfg (canonicalKey cfg.clientIPHeader)) :
     entries (canonicalKey cfg.clientIPHeader) (addHeadersIP cfg strip { r with headers := ofWire wire } ip)
       = [(canonicalKey cfg.clientIPHeader, [ip])] :=
@@ -175,7 +192,7 @@ theorem clientip_overwritten_any_casing (cfg : Cfg) (strip : Str) (r : Req) (ip 
     (htok : name.all isTokenChar = true) (hcase : lowerL name = lowerL cfg.clientIPHeader)
     (hne : cfg.clientIPHeader ≠ []) (hx : cfg.clientIPHeader ≠ xForwardedFor) (hr : cfg.clientIPHeader ≠ xRealIp)
     (hk : canonicalKey cfg.clientIPHeader ∉
-      [xRealIp, xForwardedFor, xForwardedProto, xForwardedPort, xForwardedHost, xForwardedPrefix, forwarded])
+      [xRealIp, xForwardedFor, xForwardedProto, xForwardedPort, xForwardedHost, xForwardedPrefix, forwarded, connection])
     (ht : TLSKeyFree cfg (canonicalKey cfg.clientIPHeader)) :
     entries (canonicalKey name) (addHeadersIP cfg strip { r with headers := ofWire wire } ip)
       = [(canonicalKey cfg.clientIPHeader, [ip])] := by
@@ -254,7 +271,8 @@ theorem xff_last_is_peer (cfg : Cfg) (strip : Str) (r : Req) (ip : Str)
     (hnil : vals xForwardedFor r.headers ≠ some [])
     (hc : ',' ∉ ip) (hs : ip.head? ≠ some ' ') :
     ∃ v, entries xForwardedFor (addHeadersIP cfg strip r ip) = [(xForwardedFor, [v])] ∧ lastElem v = ip := by
-  unfold addHeadersIP
+  rw [addHeadersIP_entries (by decide)]
+  unfold addHeadersCore
   rw [stepTLS_other ht, stepForward_other (by decide) (by decide) (by decide) (by decide) (by decide)]
   have e2u : entries upgrade (stepRealIp ip (stepClientIP cfg ip r.headers)) = entries upgrade r.headers := by
     rw [stepRealIp_other (by decide), stepClientIP_other hcu]
@@ -283,7 +301,8 @@ theorem xff_last_is_peer_reverseProxy (cfg : Cfg) (strip : Str) (r : Req) (ip : 
   have hws2 : isWebsocket (stepRealIp ip (stepClientIP cfg ip r.headers)) = false := by
     unfold isWebsocket at hws ⊢; rw [get1_congr e2u]; exact hws
   have ex : entries xForwardedFor (addHeadersIP cfg strip r ip) = entries xForwardedFor r.headers := by
-    unfold addHeadersIP
+    rw [addHeadersIP_entries (by decide)]
+    unfold addHeadersCore
     rw [stepTLS_other ht, stepForward_other (by decide) (by decide) (by decide) (by decide) (by decide)]
     unfold stepWS
     rw [hws2]
@@ -291,45 +310,6 @@ theorem xff_last_is_peer_reverseProxy (cfg : Cfg) (strip : Str) (r : Req) (ip : 
     rw [stepRealIp_other (by decide), stepClientIP_other hcx]
   unfold reverseProxyXFF
   exact xffAppend_last_is_peer ip _ (by rw [vals_congr ex]; exact hnil) hc hs
-
-/-! #### what the client can still do through `httputil.ReverseProxy` (finding D12d) -/
-
-theorem foldl_del_other (k : Str) (ks : List Str) (h : Headers) (hk : k ∉ ks) :
-    entries k (ks.foldl (fun acc k' => del k' acc) h) = entries k h := by
-  induction ks generalizing h with
-  | nil => rfl
-  | cons a t ih =>
-    simp only [List.mem_cons, not_or] at hk
-    simp only [List.foldl_cons]
-    rw [ih _ hk.2, entries_del_ne hk.1]
-
-/-- A header of this property reaches the upstream through the reverse proxy as `addHeaders` left it
-**provided the client's `Connection` header does not name it**. -/
-theorem reverseProxy_keeps_unnamed (ip : Str) (h : Headers) (k : Str)
-    (hx : k ≠ xForwardedFor) (hk : k ∉ hopByHopNames h) :
-    entries k (reverseProxy ip h) = entries k h := by
-  unfold reverseProxy removeHopByHop
-  rw [xffAppend_other hx, foldl_del_other k _ h hk]
-
-/-- X-Forwarded-For ends with the peer after the reverse proxy in every case (naming it in `Connection`
-only loses the prior chain). -/
-theorem xff_last_is_peer_after_reverseProxy (ip : Str) (h : Headers)
-    (hnil : vals xForwardedFor (removeHopByHop h) ≠ some []) (hc : ',' ∉ ip) (hs : ip.head? ≠ some ' ') :
-    ∃ v, entries xForwardedFor (reverseProxy ip h) = [(xForwardedFor, [v])] ∧ lastElem v = ip :=
-  xffAppend_last_is_peer ip _ hnil hc hs
-
-/-- **Negation of the unrestricted sentence, with a witness** (D12d, recorded finding, replayed from
-`corpus/c08.hopbyhop.jsonl` on the real code): on a TLS connection with TLS header `X-Tls: on` and client-IP
-header `X-Client-Ip` configured, a client sending `Connection: X-Tls, X-Client-Ip` gets both removed on the
-way to the upstream. -/
-theorem connection_header_can_remove_managed :
-    ∃ (cfg : Cfg) (r : Req) (ip : Str), cfg.tlsHeader ≠ [] ∧ r.tls.isSome = true ∧
-      entries (canonicalKey cfg.tlsHeader) (reverseProxy ip (addHeadersIP cfg [] r ip)) = [] ∧
-      entries (canonicalKey cfg.clientIPHeader) (reverseProxy ip (addHeadersIP cfg [] r ip)) = [] :=
-  ⟨{ clientIPHeader := "X-Client-Ip".toList, tlsHeader := "X-Tls".toList, tlsHeaderValue := "on".toList },
-   { headers := ofWire [("connection".toList, some "X-Tls, x-client-ip".toList)], host := "foo.com".toList,
-     remoteAddr := "1.2.3.4:5".toList, tls := some ⟨0x0303, 0xc02f⟩, proto := "HTTP/1.1".toList },
-   "1.2.3.4".toList, by decide, by decide, by decide, by decide⟩
 
 /-! #### X-Real-Ip -/
 
@@ -342,7 +322,8 @@ theorem xrealip_unless_sent (cfg : Cfg) (strip : Str) (r : Req) (ip : Str)
   have e1 : entries xRealIp (stepClientIP cfg ip r.headers) = entries xRealIp r.headers := stepClientIP_other hc _ _
   have hrest : entries xRealIp (addHeadersIP cfg strip r ip)
       = entries xRealIp (stepRealIp ip (stepClientIP cfg ip r.headers)) := by
-    unfold addHeadersIP
+    rw [addHeadersIP_entries (by decide)]
+    unfold addHeadersCore
     rw [stepTLS_other ht, stepForward_other (by decide) (by decide) (by decide) (by decide) (by decide),
       stepWS_other (by decide)]
   rw [hrest]
@@ -358,13 +339,15 @@ theorem xrealip_unless_sent (cfg : Cfg) (strip : Str) (r : Req) (ip : Str)
 
 /-- **The configured TLS header is present with the configured value exactly when the client connection
 used TLS, whatever the client sent**: on TLS it is there once with the configured value; on a plain
-connection every copy (forged by the client in any casing) is gone. No side condition: it is the last
-statement of `addHeaders`. -/
-theorem tls_header_iff_tls (cfg : Cfg) (strip : Str) (r : Req) (ip : Str) (hne : cfg.tlsHeader ≠ []) :
+connection every copy (forged by the client in any casing) is gone. Only side condition: the TLS header is
+not called `Connection` (the one header the last statement of `addHeaders` edits). -/
+theorem tls_header_iff_tls (cfg : Cfg) (strip : Str) (r : Req) (ip : Str) (hne : cfg.tlsHeader ≠ [])
+    (hcn : canonicalKey cfg.tlsHeader ≠ connection) :
     (r.tls.isSome = true →
       entries (canonicalKey cfg.tlsHeader) (addHeadersIP cfg strip r ip) = [(canonicalKey cfg.tlsHeader, [cfg.tlsHeaderValue])]) ∧
     (r.tls.isSome = false → entries (canonicalKey cfg.tlsHeader) (addHeadersIP cfg strip r ip) = []) := by
-  unfold addHeadersIP stepTLS
+  rw [addHeadersIP_entries hcn]
+  unfold addHeadersCore stepTLS
   have : cfg.tlsHeader.isEmpty = false := by
     cases h : cfg.tlsHeader with
     | nil => exact absurd h hne
@@ -410,7 +393,8 @@ theorem forwarded_supplied_when_absent (cfg : Cfg) (strip : Str) (r : Req) (ip :
     unfold isWebsocket; rw [get1_congr (pres _ hcu (by decide) (by decide))]
   have hs : scheme h3 r.tls.isSome = connScheme (isWebsocket r.headers) r.tls.isSome := by
     rw [scheme_from_connection_when_no_headers h3 _ ep ef, eu]
-  unfold addHeadersIP
+  rw [addHeadersIP_entries (by decide), addHeadersIP_entries (by decide)]
+  unfold addHeadersCore
   constructor
   · rw [stepTLS_other htf]
     show entries forwarded (stepForward cfg strip r ip h3) = _
@@ -486,7 +470,8 @@ theorem xfhost_is_client_host (cfg : Cfg) (uuid hostOpt targetHost strip : Str) 
       u.host = overrideHost hostOpt targetHost r.host := by
   refine ⟨_, by simp only [serve, addHeaders, hsplit]; rfl, ?_, rfl⟩
   show entries xForwardedHost (addHeadersIP cfg strip { r with headers := _ } ip) = _
-  unfold addHeadersIP
+  rw [addHeadersIP_entries (by decide)]
+  unfold addHeadersCore
   rw [stepTLS_other ht]
   exact stepForward_xfhost cfg strip _ ip _
     (by rw [get1_congr (serve_prefix_other cfg uuid ip r hq hc (by decide) (by decide))]; exact hx) hh
@@ -502,7 +487,8 @@ theorem xfport_from_client_host (cfg : Cfg) (uuid hostOpt targetHost strip : Str
       u.host = overrideHost hostOpt targetHost r.host := by
   refine ⟨_, by simp only [serve, addHeaders, hsplit]; rfl, ?_, rfl⟩
   show entries xForwardedPort (addHeadersIP cfg strip { r with headers := _ } ip) = _
-  unfold addHeadersIP
+  rw [addHeadersIP_entries (by decide)]
+  unfold addHeadersCore
   rw [stepTLS_other ht]
   exact stepForward_xfport cfg strip _ ip _
     (by rw [get1_congr (serve_prefix_other cfg uuid ip r hq hc (by decide) (by decide))]; exact hx)
@@ -580,14 +566,15 @@ theorem requestid_overwritten (cfg : Cfg) (uuid hostOpt targetHost strip : Str) 
     (hsplit : splitHostPort r.remoteAddr = some (ip, port)) (hne : cfg.requestID ≠ [])
     (hc : ClientIPKeyFree cfg (canonicalKey cfg.requestID)) (ht : TLSKeyFree cfg (canonicalKey cfg.requestID))
     (hk : canonicalKey cfg.requestID ∉
-      [xRealIp, xForwardedFor, xForwardedProto, xForwardedPort, xForwardedHost, xForwardedPrefix, forwarded]) :
+      [xRealIp, xForwardedFor, xForwardedProto, xForwardedPort, xForwardedHost, xForwardedPrefix, forwarded, connection]) :
     ∃ u, serve cfg uuid hostOpt targetHost strip r = some u ∧
       entries (canonicalKey cfg.requestID) u.headers = [(canonicalKey cfg.requestID, [uuid])] := by
   simp only [List.mem_cons, List.not_mem_nil, or_false, not_or] at hk
-  obtain ⟨k1, k2, k3, k4, k5, k6, k7⟩ := hk
+  obtain ⟨k1, k2, k3, k4, k5, k6, k7, k8⟩ := hk
   refine ⟨_, by simp only [serve, addHeaders, hsplit]; rfl, ?_⟩
   show entries _ (addHeadersIP cfg strip { r with headers := _ } ip) = _
-  unfold addHeadersIP
+  rw [addHeadersIP_entries k8]
+  unfold addHeadersCore
   rw [stepTLS_other ht, stepForward_other k3 k4 k5 k6 k7, stepWS_other k2, stepRealIp_other k1,
     stepClientIP_other hc]
   have : cfg.requestID.isEmpty = false := by
@@ -596,6 +583,201 @@ theorem requestid_overwritten (cfg : Cfg) (uuid hostOpt targetHost strip : Str) 
     | cons _ _ => rfl
   simp only [this, Bool.false_eq_true, if_false]
   exact entries_put_self _ _ _
+
+/-! #### through `httputil.ReverseProxy`: the client's `Connection` header (D12d, repaired) -/
+
+theorem foldl_del_other (k : Str) (ks : List Str) (h : Headers) (hk : k ∉ ks) :
+    entries k (ks.foldl (fun acc k' => del k' acc) h) = entries k h := by
+  induction ks generalizing h with
+  | nil => rfl
+  | cons a t ih =>
+    simp only [List.mem_cons, not_or] at hk
+    simp only [List.foldl_cons]
+    rw [ih _ hk.2, entries_del_ne hk.1]
+
+/-- A header reaches the upstream through the reverse proxy as `addHeaders` left it provided the
+`Connection` header handed to the reverse proxy does not name it. -/
+theorem reverseProxy_keeps_unnamed (ip : Str) (h : Headers) (k : Str)
+    (hx : k ≠ xForwardedFor) (hk : k ∉ hopByHopNames h) :
+    entries k (reverseProxy ip h) = entries k h := by
+  unfold reverseProxy removeHopByHop
+  rw [xffAppend_other hx, foldl_del_other k _ h hk]
+
+/-- X-Forwarded-For ends with the peer after the reverse proxy in every case. -/
+theorem xff_last_is_peer_after_reverseProxy (ip : Str) (h : Headers)
+    (hnil : vals xForwardedFor (removeHopByHop h) ≠ some []) (hc : ',' ∉ ip) (hs : ip.head? ≠ some ' ') :
+    ∃ v, entries xForwardedFor (reverseProxy ip h) = [(xForwardedFor, [v])] ∧ lastElem v = ip :=
+  xffAppend_last_is_peer ip _ hnil hc hs
+
+/-! `strings.Split` / `strings.Join` on commas -/
+
+theorem splitComma_cons (c : Char) (cs : Str) :
+    ∃ t ts, splitComma cs = t :: ts ∧
+      splitComma (c :: cs) = if c == ',' then [] :: t :: ts else (c :: t) :: ts := by
+  induction cs generalizing c with
+  | nil => exact ⟨[], [], rfl, by simp [splitComma]⟩
+  | cons d ds ih =>
+    obtain ⟨t, ts, h1, h2⟩ := ih d
+    have hne : ∃ t' ts', splitComma (d :: ds) = t' :: ts' := by
+      rw [h2]; split <;> exact ⟨_, _, rfl⟩
+    obtain ⟨t', ts', h3⟩ := hne
+    refine ⟨t', ts', h3, ?_⟩
+    conv => lhs; unfold splitComma
+    simp only [h3]
+
+theorem splitComma_no_comma (t : Str) (h : ',' ∉ t) : splitComma t = [t] := by
+  induction t with
+  | nil => rfl
+  | cons c cs ih =>
+    obtain ⟨t', ts', h1, h2⟩ := splitComma_cons c cs
+    have hc : (c == ',') = false := by
+      have : c ≠ ',' := fun e => h (by simp [e])
+      simp [this]
+    rw [ih (fun m => h (by simp [m]))] at h1
+    cases h1
+    rw [h2, hc]; rfl
+
+theorem splitComma_append (t rest : Str) (h : ',' ∉ t) :
+    splitComma (t ++ ',' :: rest) = t :: splitComma rest := by
+  induction t with
+  | nil =>
+    obtain ⟨t', ts', h1, h2⟩ := splitComma_cons ',' rest
+    simp only [List.nil_append, h2, h1]; rfl
+  | cons c cs ih =>
+    obtain ⟨t', ts', h1, h2⟩ := splitComma_cons c (cs ++ ',' :: rest)
+    have hc : (c == ',') = false := by
+      have : c ≠ ',' := fun e => h (by simp [e])
+      simp [this]
+    rw [ih (fun m => h (by simp [m]))] at h1
+    cases h1
+    simp only [List.cons_append, h2, hc]; rfl
+
+theorem splitComma_comma_free (s t : Str) (ht : t ∈ splitComma s) : ',' ∉ t := by
+  induction s generalizing t with
+  | nil => simp [splitComma] at ht; subst ht; simp
+  | cons c cs ih =>
+    obtain ⟨t', ts', h1, h2⟩ := splitComma_cons c cs
+    rw [h2] at ht
+    by_cases hc : c = ','
+    · simp only [hc, beq_self_eq_true, if_true, List.mem_cons] at ht
+      rcases ht with e | e | e
+      · subst e; simp
+      · exact ih t (by rw [h1]; simp [e])
+      · exact ih t (by rw [h1]; simp [e])
+    · have hb : (c == ',') = false := by simp [hc]
+      simp only [hb, Bool.false_eq_true, if_false, List.mem_cons] at ht
+      rcases ht with e | e
+      · subst e
+        have := ih t' (by rw [h1]; simp)
+        intro m
+        simp only [List.mem_cons] at m
+        rcases m with m | m
+        · exact hc m.symm
+        · exact this m
+      · exact ih t (by rw [h1]; simp [e])
+
+theorem splitComma_joinComma (toks : List Str) (hne : toks ≠ []) (hcf : ∀ t ∈ toks, ',' ∉ t) :
+    splitComma (joinComma toks) = toks := by
+  induction toks with
+  | nil => exact absurd rfl hne
+  | cons x rest ih =>
+    cases rest with
+    | nil => exact splitComma_no_comma x (hcf x (by simp))
+    | cons y t =>
+      show splitComma (x ++ ',' :: joinComma (y :: t)) = _
+      rw [splitComma_append _ _ (hcf x (by simp)), ih (by simp) (fun u hu => hcf u (by simp [hu]))]
+
+/-- What `protectManagedHeaders` keeps of one `Connection` value names no managed header. -/
+theorem keepTokens_spec {cfg : Cfg} {v v' : Str} (h : keepTokens cfg v = some v') :
+    ∀ t ∈ splitComma v', tokenKey t ∉ managedKeys cfg := by
+  unfold keepTokens at h
+  simp only at h
+  split at h
+  · cases h
+  · rename_i hne
+    cases h
+    have hne' : (splitComma v).filter (fun t => !(managedKeys cfg).contains (tokenKey t)) ≠ [] := by
+      intro e; apply hne; rw [e]; rfl
+    have hcf : ∀ t ∈ (splitComma v).filter (fun t => !(managedKeys cfg).contains (tokenKey t)), ',' ∉ t :=
+      fun t ht => splitComma_comma_free _ _ (List.mem_filter.mp ht).1
+    rw [splitComma_joinComma _ hne' hcf]
+    intro t ht
+    have := (List.mem_filter.mp ht).2
+    simpa using this
+
+/-- After `addHeaders` the `Connection` header names none of the headers fabio maintains — for every
+`Connection` header (any number of lines, any casing, any spacing) the client sent. -/
+theorem connection_names_no_managed (cfg : Cfg) (h : Headers) (k : Str)
+    (hk : k ∈ hopByHopNames (stepConnection cfg h)) : k ∉ managedKeys cfg := by
+  unfold hopByHopNames at hk
+  cases hc : vals connection h with
+  | none =>
+    have : stepConnection cfg h = h := by simp [stepConnection, hc]
+    rw [this, hc] at hk
+    simp at hk
+  | some conn =>
+    by_cases hke : (conn.filterMap (keepTokens cfg)).isEmpty = true
+    · have : stepConnection cfg h = del connection h := by simp [stepConnection, hc, hke]
+      rw [this, vals_of_entries_nil (entries_del_self connection h)] at hk
+      simp at hk
+    · have : stepConnection cfg h = put connection (conn.filterMap (keepTokens cfg)) h := by
+        simp [stepConnection, hc, hke]
+      rw [this, vals_of_entries_single (entries_put_self connection _ h)] at hk
+      simp only [Option.getD_some, List.mem_flatMap, List.mem_filterMap] at hk
+      obtain ⟨v, ⟨v0, _, hv0⟩, t, ht, hkt⟩ := hk
+      split at hkt
+      · cases hkt
+      · cases hkt
+        exact keepTokens_spec hv0 t ht
+
+/-- **For every `Connection` header the client sends, the headers fabio maintains reach the upstream**
+(D12d): what `httputil.ReverseProxy` forwards under a managed name is exactly what `addHeaders` left there.
+Assumption (as everywhere): the reverse proxy deletes precisely the headers named by the `Connection`
+tokens (`hopByHopNames`) and appends to X-Forwarded-For. Compose with any sentence above. -/
+theorem managed_headers_survive_connection_tokens (cfg : Cfg) (strip : Str) (r : Req) (ip : Str) (k : Str)
+    (hk : k ∈ managedKeys cfg) (hx : k ≠ xForwardedFor) :
+    entries k (reverseProxy ip (addHeadersIP cfg strip r ip)) = entries k (addHeadersIP cfg strip r ip) := by
+  apply reverseProxy_keeps_unnamed ip _ k hx
+  intro hmem
+  exact connection_names_no_managed cfg _ k hmem hk
+
+/-- … including the chain in X-Forwarded-For, to which the reverse proxy then appends the peer. -/
+theorem xff_chain_survives_connection_tokens (cfg : Cfg) (strip : Str) (r : Req) (ip : Str) :
+    entries xForwardedFor (removeHopByHop (addHeadersIP cfg strip r ip))
+      = entries xForwardedFor (addHeadersIP cfg strip r ip) := by
+  unfold removeHopByHop
+  apply foldl_del_other
+  intro hmem
+  exact connection_names_no_managed cfg _ _ hmem (by simp [managedKeys])
+
+/-- Headline corollary: on a TLS connection the upstream receives the configured TLS header with the
+configured value whatever the client put into `Connection` (and into that header itself). -/
+theorem tls_header_reaches_upstream (cfg : Cfg) (strip : Str) (r : Req) (ip : Str)
+    (hne : cfg.tlsHeader ≠ []) (hcn : canonicalKey cfg.tlsHeader ≠ connection)
+    (hx : canonicalKey cfg.tlsHeader ≠ xForwardedFor) (htls : r.tls.isSome = true) :
+    entries (canonicalKey cfg.tlsHeader) (reverseProxy ip (addHeadersIP cfg strip r ip))
+      = [(canonicalKey cfg.tlsHeader, [cfg.tlsHeaderValue])] := by
+  have hmem : canonicalKey cfg.tlsHeader ∈ managedKeys cfg := by
+    have : cfg.tlsHeader.isEmpty = false := by
+      cases h : cfg.tlsHeader with
+      | nil => exact absurd h hne
+      | cons _ _ => rfl
+    unfold managedKeys
+    exact List.mem_append_right _ (List.mem_map.mpr ⟨cfg.tlsHeader, by simp [this], rfl⟩)
+  rw [managed_headers_survive_connection_tokens cfg strip r ip _ hmem hx]
+  exact (tls_header_iff_tls cfg strip r ip hne hcn).1 htls
+
+/-- What the repair closed, kept as a witness about the code *without* its last statement
+(`addHeadersCore`): on TLS with `X-Tls: on` and `X-Client-Ip` configured, `Connection: X-Tls, x-client-ip`
+made the reverse proxy drop both. With the last statement the same input keeps both (examples below). -/
+theorem connection_header_could_remove_managed :
+    ∃ (cfg : Cfg) (r : Req) (ip : Str), cfg.tlsHeader ≠ [] ∧ r.tls.isSome = true ∧
+      entries (canonicalKey cfg.tlsHeader) (reverseProxy ip (addHeadersCore cfg [] r ip)) = [] ∧
+      entries (canonicalKey cfg.clientIPHeader) (reverseProxy ip (addHeadersCore cfg [] r ip)) = [] :=
+  ⟨{ clientIPHeader := "X-Client-Ip".toList, tlsHeader := "X-Tls".toList, tlsHeaderValue := "on".toList },
+   { headers := ofWire [("connection".toList, some "X-Tls, x-client-ip".toList)], host := "foo.com".toList,
+     remoteAddr := "1.2.3.4:5".toList, tls := some ⟨0x0303, 0xc02f⟩, proto := "HTTP/1.1".toList },
+   "1.2.3.4".toList, by decide, by decide, by decide, by decide⟩
 
 /-! #### Strict-Transport-Security -/
 
@@ -638,7 +820,7 @@ example : entries "X-Tls".toList (addHeadersIP exCfg [] (exReq (some ⟨0x0303, 
     = [("X-Tls".toList, ["on".toList])] := by decide
 -- the hypotheses of `clientip_overwritten` hold for this configuration
 example : canonicalKey exCfg.clientIPHeader ∉
-    [xRealIp, xForwardedFor, xForwardedProto, xForwardedPort, xForwardedHost, xForwardedPrefix, forwarded] := by decide
+    [xRealIp, xForwardedFor, xForwardedProto, xForwardedPort, xForwardedHost, xForwardedPrefix, forwarded, connection] := by decide
 example : TLSKeyFree exCfg (canonicalKey exCfg.clientIPHeader) := Or.inr (by decide)
 -- mixed-case websocket upgrade: X-Forwarded-For keeps the chain and ends with the peer (D12b)
 example : isWebsocket (exReq none).headers = true := by decide
@@ -650,6 +832,17 @@ example : vals forwarded (addHeadersIP exCfg [] (exReq none) "1.2.3.4".toList)
 example : (serve exCfg "id".toList "up.example".toList "10.0.0.1:9000".toList [] (exReq none)).map
     (fun u => (u.host, vals xForwardedHost u.headers, vals xForwardedPort u.headers))
     = some ("up.example".toList, some ["client.example:8080".toList], some ["8080".toList]) := by decide
+-- D12d: Connection names the TLS and client-IP headers next to harmless tokens; both survive, the tokens stay
+def exConnReq : Req :=
+  { headers := ofWire [("connection".toList, some "keep-alive, X-TLS ,x-client-ip, X-Other".toList),
+                       ("Connection".toList, some "x-real-ip".toList)],
+    host := "foo.com".toList, remoteAddr := "1.2.3.4:5".toList, tls := some ⟨0x0303, 0xc02f⟩, proto := "HTTP/1.1".toList }
+example : vals connection (addHeadersIP exCfg [] exConnReq "1.2.3.4".toList) = some ["keep-alive, X-Other".toList] := by decide
+example : entries "X-Tls".toList (reverseProxy "1.2.3.4".toList (addHeadersIP exCfg [] exConnReq "1.2.3.4".toList))
+    = [("X-Tls".toList, ["on".toList])] := by decide
+example : entries "X-Client-Ip".toList (reverseProxy "1.2.3.4".toList (addHeadersIP exCfg [] exConnReq "1.2.3.4".toList))
+    = [("X-Client-Ip".toList, ["1.2.3.4".toList])] := by decide
+example : canonicalKey exCfg.tlsHeader ∈ managedKeys exCfg := by decide
 example : localPort ("client.example".toList ++ ':' :: "8080".toList) true = "8080".toList :=
   localPort_name_port _ _ _ (by decide) (by decide) (by decide) (by decide)
 example : localPort "[::1]:8080".toList false = "8080".toList := by decide
